@@ -1,12 +1,16 @@
 package engines
 
 import (
+	"bufio"
 	"bytes"
 	"compress/gzip"
 	"compress/zlib"
 	"errors"
 	"fmt"
+	"github.com/gofiber/fiber/v3/middleware/adaptor"
 	"io"
+	"net/http"
+	"net/http/httptest"
 	"os"
 	"regexp"
 	"sort"
@@ -96,18 +100,19 @@ type kept struct {
 }
 
 type ksWorld struct {
-	s         *simrt.Sim
-	reqs      []*ksReq
-	obsOf     func(id int) *ksObs
-	yield     bool
-	immutMode bool
-	immutable bool
-	globalMW  bool // a middleware in front of everything (then every request has a matched route)
-	customEH  bool // the application configures its own ErrorHandler (observes, then delegates)
-	customCtx bool // the application brings its own context type (NewCtxFunc)
-	wireCheck bool // routing leaves paths as sent (case-sensitive, no unescaping): accessor values can be compared with the wire
-	kept      []*kept
-	unstable  []string
+	viaAdaptor bool // requests enter through net/http and middleware/adaptor
+	s          *simrt.Sim
+	reqs       []*ksReq
+	obsOf      func(id int) *ksObs
+	yield      bool
+	immutMode  bool
+	immutable  bool
+	globalMW   bool // a middleware in front of everything (then every request has a matched route)
+	customEH   bool // the application configures its own ErrorHandler (observes, then delegates)
+	customCtx  bool // the application brings its own context type (NewCtxFunc)
+	wireCheck  bool // routing leaves paths as sent (case-sensitive, no unescaping): accessor values can be compared with the wire
+	kept       []*kept
+	unstable   []string
 }
 
 type bindQ struct {
@@ -601,6 +606,10 @@ func (w *ksWorld) serve(app *fiber.App, conn *harness.Conn, r *ksReq, o *ksObs) 
 				res = "panic"
 			}
 		}()
+		if w.viaAdaptor {
+			res = w.serveAdaptor(app, conn, r)
+			return
+		}
 		resp := conn.Do(r.raw)
 		hs := resp.HeaderString()
 		// old input is collected from a map: the order of the entries inside the flash
@@ -619,6 +628,34 @@ func (w *ksWorld) serve(app *fiber.App, conn *harness.Conn, r *ksReq, o *ksObs) 
 		}
 	}()
 	return res
+}
+
+// serveAdaptor: the application behind net/http (middleware/adaptor.FiberApp), which brings its own pool of
+// fasthttp request contexts.
+func (w *ksWorld) serveAdaptor(app *fiber.App, conn *harness.Conn, r *ksReq) string {
+	hr, err := http.ReadRequest(bufio.NewReader(bytes.NewReader(r.raw)))
+	if err != nil {
+		return "not a request net/http accepts"
+	}
+	hr.RemoteAddr = conn.RemoteIP() + ":40000"
+	rec := httptest.NewRecorder()
+	adaptor.FiberApp(app)(rec, hr)
+	var hs []string
+	for k, vs := range rec.Header() {
+		for _, v := range vs {
+			if k == "Set-Cookie" && strings.HasPrefix(v, "fiber_flash=") {
+				b := []byte(flashExpiresRe.ReplaceAllString(v, "expires=T"))
+				sort.Slice(b, func(x, y int) bool { return b[x] < b[y] })
+				v = "fiber_flash, bytes sorted: " + string(b)
+			}
+			if k == "Date" {
+				continue
+			}
+			hs = append(hs, k+": "+v)
+		}
+	}
+	sort.Strings(hs)
+	return fmt.Sprintf("%d|%s|%q", rec.Code, strings.Join(hs, "\n"), rec.Body.String())
 }
 
 func ksGenerate(s *simrt.Sim, nconn int, flashValid string) []*ksReq {
@@ -904,9 +941,13 @@ func ksRun(s *simrt.Sim, info *harness.RunInfo, immutMode bool) {
 			s.Count("probe_streamed_request_bodies")
 		}
 	}
-	cfgLine := fmt.Sprintf("immutMode=%v immutable=%v caseSensitive=%v strict=%v unescape=%v proxyHeader=%q ipValidation=%v conns=%d preempt=%d net=%+v stream=%v reducemem=%v", immutMode, cfg.Immutable, cfg.CaseSensitive, cfg.StrictRouting, cfg.UnescapePath, cfg.ProxyHeader, cfg.EnableIPValidation, nconn, preempt, netw, cfg.StreamRequestBody, cfg.ReduceMemoryUsage)
+	viaAdaptor := !netw.Enabled && !immutMode && s.Chance(120)
+	cfgLine := fmt.Sprintf("adaptor=%v ", viaAdaptor) + fmt.Sprintf("immutMode=%v immutable=%v caseSensitive=%v strict=%v unescape=%v proxyHeader=%q ipValidation=%v conns=%d preempt=%d net=%+v stream=%v reducemem=%v", immutMode, cfg.Immutable, cfg.CaseSensitive, cfg.StrictRouting, cfg.UnescapePath, cfg.ProxyHeader, cfg.EnableIPValidation, nconn, preempt, netw, cfg.StreamRequestBody, cfg.ReduceMemoryUsage)
 	ksFiles()
-	w := &ksWorld{s: s, immutMode: immutMode, immutable: cfg.Immutable, globalMW: !s.Chance(300), customEH: s.Chance(400), customCtx: s.Chance(250)}
+	if viaAdaptor {
+		s.Count("probe_application_behind_net_http_adaptor")
+	}
+	w := &ksWorld{s: s, viaAdaptor: viaAdaptor, immutMode: immutMode, immutable: cfg.Immutable, globalMW: !s.Chance(300), customEH: s.Chance(400), customCtx: s.Chance(250)}
 	if s.Chance(300) {
 		cfg.Views = ksViews{}
 		cfg.PassLocalsToViews = s.Chance(500)
